@@ -221,13 +221,24 @@ def check(repo: Repo, rep: Report) -> None:
     rep.ob("T5-clock-readings", tsf, "timestamp: source.pipe(map(mapper)) built per subscription (defer)", TC.pipelines_of(tsf) == [["map"]] and
            any(isinstance(n, ast.Call) and call_name(n) == "defer" for n in repo.fn(TS, "timestamp_").all_nodes()),
            "timestamp is no longer a per-subscription map over the source")
-    ti = repo.fn(TI, "time_interval_.subscribe")
-    imap = ti.child("mapper")
-    rep.require(imap is not None, "time_interval mapper")
-    scheds = set(locals_by_init(ti, lambda v: _mentions(v, {ti.params[1]})))
+    # anchors by role, not by path: the mapper is the function that builds TimeInterval(...); the per-subscription function is
+    # its enclosing subscribe function / defer factory (whose scheduler parameter is the subscription's scheduler)
+    tif = repo.fn(TI, "time_interval_")
+    imap = next((g for g in tif.walk() if g.is_func and any(isinstance(n, ast.Return) and isinstance(n.value, ast.Call) and call_name(n.value) == "TimeInterval"
+                                                            for n in g.direct_nodes())), None)
+    rep.require(imap is not None, "time_interval mapper (the function returning TimeInterval(...))")
+    ti = imap.parent
+    while ti is not None and ti is not tif and m.role.get(ti) not in ("subscribe", "deferred"):
+        ti = ti.parent
+    rep.require(ti is not None and ti is not tif and ti.params, "time_interval: per-subscription function around the mapper")
+    sched_param = ti.params[1] if m.role.get(ti) == "subscribe" and len(ti.params) > 1 else ti.params[0]
+    scheds = set(locals_by_init(ti, lambda v: _mentions(v, {sched_param})))
     lasts = [l for l in locals_by_init(ti, lambda v: isinstance(v, ast.Attribute) and v.attr == "now" and u(v.value) in scheds)]
     rep.ob("T5-clock-readings", ti, "time_interval: last initialised from the scheduler clock at subscription", len(lasts) == 1,
            "the first interval is not measured from the subscription")
+    rep.ob("T5-clock-readings", ti, "time_interval: the previous reading is per-subscription state", len(lasts) == 1 and ti.owner(lasts[0]) is ti,
+           "the previous clock reading of time_interval is not owned by the per-subscription function: overlapping subscriptions reset and "
+           "advance each other's baseline")
     last = lasts[0] if lasts else "?last"
     nows = [s for s in sites(imap) if isinstance(s.node, ast.Assign) and isinstance(s.node.value, ast.Attribute) and s.node.value.attr == "now"
             and u(s.node.value.value) in scheds]
